@@ -4,7 +4,7 @@ import (
 	"verif/harness/vh"
 )
 
-const statsRule = "three case families. kv: small operation sequences (SaveRaftState with several replicas, snapshots, RemoveEntriesTo, RemoveNodeData, ImportSnapshot, reopen) on the real sharded LogDB (plain and batched format) over a recording kv.IKVStore, run once fault-free and once for EVERY KV call index with an injected I/O error, a crash before and a crash after that call; tan*: record lists written by tan's record writer (sizes around the 32 KB block boundaries), replayed in full, at truncation points and with garbage tails; tanio: saves with 100-200 KB entries (records of 4-7 blocks) on the real Tan (regular, multiplexed) with an I/O error injected at EVERY log file Write call in turn; crash: workloads on the real Pebble LogDB / Tan over the strict MemFS with a power cut at an FS operation. non-trivial = kv: the injected fault fired inside an operation (distinct by case text); tan: the log has a multi-chunk record or a torn tail; tanio: the write error fired; crash: the cut fell inside an operation (not after the workload)"
+const statsRule = "three case families. kv: small operation sequences (SaveRaftState with several replicas, snapshots, RemoveEntriesTo, RemoveNodeData, ImportSnapshot, reopen) on the real sharded LogDB (plain and batched format) over a recording kv.IKVStore, run once fault-free and once for EVERY KV call index with an injected I/O error, a crash before and a crash after that call; tan*: record lists written by tan's record writer (sizes around the 32 KB block boundaries), replayed in full, at truncation points and with garbage tails; tanio: saves with 100-200 KB entries (records of 4-7 blocks) on the real Tan (regular, multiplexed) with an I/O error injected at EVERY log file Write call in turn; crashseq: sequences of power cuts and reopens (at least three opens, crashes right after an open with nothing written) on all four stores; crash: workloads on the real Pebble LogDB / Tan over the strict MemFS with a power cut at an FS operation. non-trivial = kv: the injected fault fired inside an operation (distinct by case text); tan: the log has a multi-chunk record or a torn tail; tanio: the write error fired; crash: the cut fell inside an operation (not after the workload)"
 
 func sub(seed uint64, salt uint64) *vh.Rand {
 	return vh.NewRand(vh.NewRand(seed).U64() ^ salt)
@@ -19,6 +19,9 @@ func gen(a vh.Args) {
 		w.Printf("%s\n", l)
 	}
 	for _, l := range genTanIOCases(sub(a.Seed, 0x10d), a.Tier, a.N) {
+		w.Printf("%s\n", l)
+	}
+	for _, l := range genCrashSeqCases(sub(a.Seed, 0x10e), a.Tier, a.N) {
 		w.Printf("%s\n", l)
 	}
 	for _, l := range genCrashCases(sub(a.Seed, 0x10c), a.Tier, a.N) {
